@@ -196,7 +196,7 @@ func condExpr(c *Cond, lang string) string {
 			if op == "==" {
 				op = "="
 			}
-			s = fmt.Sprintf("/map/%s %s %d", c.Var, xmlEscape(op), c.Val)
+			s = fmt.Sprintf("//%s %s %d", c.Var, xmlEscape(op), c.Val)
 			return s + andPart(c, lang, xp)
 		}
 		s = fmt.Sprintf("%s %s %d", c.Var, op, c.Val)
